@@ -42,7 +42,11 @@ pub const RESERVED: [&str; 38] = [
 ];
 
 /// identifiers every reading accepts (and that are unlikely ever to become keywords)
-pub const GOOD_FN: [&str; 8] = ["fn_a", "probe1", "_x1", "a_b_c", "X9", "zz_top", "__w", "q"];
+pub const GOOD_FN: [&str; 18] = [
+    "fn_a", "probe1", "_x1", "a_b_c", "X9", "zz_top", "__w", "q",
+    // identifiers that merely contain, start or end with a reserved word
+    "iffy", "android", "or_else", "int2", "key1", "valid", "my_if", "x_and_y", "trimmed", "a_",
+];
 /// near-identifiers every reading refuses
 pub const BAD_FN: [&str; 20] = [
     "1a", "a-b", "a b", "_-x", "_ a", "a.b", "", "a\u{a0}b", "a\u{2013}b", "\u{1F600}", "_.", "9", "-", "a(", " a", "a ",
@@ -89,7 +93,9 @@ fn classify(name: &str) -> NameClass {
 
 pub fn generate(seed: u64, idx: u64) -> History {
     let mut rng = Rng::new(seed);
-    let n = 1 + rng.usize(12);
+    // now and then a long history with many distinct names (capacity-like limits would show here)
+    let long = rng.chance(1, 12);
+    let n = if long { 20 + rng.usize(60) } else { 1 + rng.usize(12) };
     let mut ops = vec![];
     let mut uid = 1000;
     let mut next = || {
@@ -130,6 +136,16 @@ pub fn generate(seed: u64, idx: u64) -> History {
                 }
                 continue;
             }
+        }
+        if long && rng.chance(2, 3) {
+            // mostly fresh names, so that the tables really grow
+            let id = next();
+            match rng.below(3) {
+                0 => ops.push(BOp::Rule(format!("bulk rule {}", rng.below(60)), id)),
+                1 => ops.push(BOp::Func(format!("bulk_fn_{}", rng.below(60)), id)),
+                _ => ops.push(BOp::Symbol(format!("bulk_sym_{}", rng.below(40)), id)),
+            }
+            continue;
         }
         match rng.below(11) {
             0 | 1 | 2 => ops.push(BOp::Rule(rng.pick(&RULE_NAMES).to_string(), next())),
